@@ -318,6 +318,31 @@ class Program:
                 for f in c.methods.values():
                     self.funcs[f.qual] = f
 
+    def constructor_helpers(self):
+        """Names of methods whose every mention (self.m, Class.m) sits in an __init__ or in another such helper: they run as part of
+        a constructor chain and nowhere else."""
+        got = getattr(self, "_ctor_helpers", None)
+        if got is not None:
+            return got
+        mentions_of = {}
+        for f in self.funcs.values():
+            for n in ast.walk(f.node):
+                if isinstance(n, ast.Attribute):
+                    mentions_of.setdefault(n.attr, set()).add(f.name if f.parent is None else "<nested>")
+        helpers = set()
+        changed = True
+        while changed:
+            changed = False
+            for f in self.funcs.values():
+                if f.cls is None or f.parent is not None or f.name in helpers or f.name.startswith("__"):
+                    continue
+                users = mentions_of.get(f.name)
+                if users and all(u == "__init__" or u in helpers for u in users):
+                    helpers.add(f.name)
+                    changed = True
+        self._ctor_helpers = helpers
+        return helpers
+
     # ---- roles of attribute names, discovered from what is stored into them -------------
     def field_roles(self):
         """{'alarm': names of attributes that receive a callLater() handle, 'loop': ... a LoopingCall,
@@ -379,7 +404,7 @@ class Program:
                 for t, v in tgts:
                     for tt in (t.elts if isinstance(t, (ast.Tuple, ast.List)) else [t]):
                         if isinstance(tt, ast.Attribute):
-                            if f.name != "__init__":
+                            if f.name != "__init__" and not (f.cls is not None and f.parent is None and f.name in self.constructor_helpers()):
                                 mutable.add(tt.attr)
                             k = kind_of(v, local_kinds) if v is not None else None
                             if k == "alarm":
